@@ -187,6 +187,42 @@ def run_spec(spec, props=("C05",)):
         A.sample = {"spec": spec, "sets": sorted(map(sorted, seen))[:5]}
         return A.result(props)
 
+    if kind == "tmin_ties":
+        # genuine events at exactly tmin (zero delays, zero-length infectious periods): row 0 is still the request
+        I0 = list(spec["I0"]); R0 = list(spec.get("R0", []))
+        var = spec["variant"]
+
+        def rec(u, *a):
+            return 0.0 if (var in ("zero_duration", "both") and u == I0[0]) else 1.0
+        if name == "fast_nonMarkov_SIS":
+            def trans(u, v, d, *a):
+                return [0.0, 0.6] if (var in ("zero_delay", "both") and (u + v) % 2 == 1) else [0.4]
+            kw2 = dict(kw, trans_time_fxn=trans, rec_time_fxn=rec, initial_infecteds=list(I0))
+        else:
+            def trans(u, v, *a):
+                return 0.0 if (var in ("zero_delay", "both") and (u + v) % 2 == 1) else 0.4
+            kw2 = dict(kw, trans_time_fxn=trans, rec_time_fxn=rec, initial_infecteds=list(I0))
+            if R0:
+                kw2["initial_recovereds"] = list(R0)
+        r = run_once(sim, lambda orc: getattr(EoN, name)(G, **kw2), (), exp=exp_pol)
+        A.execs = 1; A.evals = 1; A.states.add(hsh(spec)); A.trans.add(hsh(spec)); A.nontrivial.add(hsh(spec))
+        cls = "tmin_ties:" + var
+        if r.exc is not None:
+            A.add(V("C05", name, cls, "exception", "%s with events at exactly tmin raised %r" % (name, r.exc)))
+            return A.result(props)
+        out = r.out
+        if full:
+            a0 = [out.t(), out.S(), out.I()] + ([out.R()] if sir else [])
+        else:
+            a0 = list(out)
+        A.outcomes.add(hsh([np.asarray(a).tolist() for a in a0]))
+        for s_, m_ in mon.c05_arrays(a0, n, tmin, I0, R0, sir):
+            if full:
+                continue      # (a time-indexed summary has one row per instant: events at exactly tmin collapse into it)
+            A.add(V("C05", name, cls, s_, m_ + " (rules: %s)" % var))
+        A.sample = {"spec": spec, "arrays": [np.asarray(a).tolist() for a in a0]}
+        return A.result(props)
+
     if kind == "conflict":
         # rho together with initial_infecteds must be rejected with EoNError
         I0c = {"list": [0], "node0": 0, "node1": 1, "empty": [], "array": np.array([0, 1]), "set": {1}}[spec["given"]]
@@ -269,6 +305,13 @@ def specs(tier):
                     continue
                 for full in (True, False):
                     out.append(dict(kind="rho", fn=name, n=n, edges=es, rho=rho, tmax=3 if model == "SIS" else "inf", full=full))
+        if name in ("fast_nonMarkov_SIS", "fast_nonMarkov_SIR"):
+            for n_, es_ in [gr.NAMED[k] for k in ("P2", "P3", "K3", "S4")]:
+                for I0 in gr.subsets(range(n_), 1, 2):
+                    for var in ("zero_delay", "zero_duration", "both"):
+                        for full in (False,):
+                            out.append(dict(kind="tmin_ties", fn=name, n=n_, edges=es_, I0=list(I0), R0=[], variant=var, tmin=(0 if sum(I0) % 2 else 1.5),
+                                            tmax=(0 if sum(I0) % 2 else 1.5) + 3, full=full))
         for given in ("list", "node0", "node1", "empty", "array", "set"):
             for rho in (0.5, 0.0):
                 out.append(dict(kind="conflict", fn=name, n=3, edges=[(0, 1), (1, 2)], given=given, rho=rho, tmax=3))
